@@ -5,33 +5,63 @@
 pub(crate) mod verif_common {
     use crate::{Error, Read, Result, Write};
 
-    /// Fixed-capacity sink.  `write` accepts everything in one shot (no loop) and `write_all` is overridden so
-    /// the default retry loop is not nested into the caller's loops.  Overflowing the capacity is a harness
-    /// sizing bug and is asserted, so it can never silently truncate.
+    /// Fixed-capacity fault-free sink.  `write` accepts everything in one shot and `write_all` is overridden so the
+    /// default retry loop is not nested into the caller's loops.  Overflowing the capacity is a harness sizing bug and
+    /// is asserted, so it can never silently truncate.
     pub struct Sink<const N: usize> {
         pub buf: [u8; N],
         pub len: usize,
         pub writes: usize,
         pub flushes: usize,
-        /// fault schedule: at most `chunk` bytes accepted per `write` call (usize::MAX = everything)
-        pub chunk: usize,
-        /// fault schedule: the `write` call with this index returns Err(Interrupted) once
-        pub intr_at: usize,
-        /// fault schedule: every `write` call with index >= err_at returns Err(Other)
-        pub err_at: usize,
-        pub calls: usize,
     }
 
     impl<const N: usize> Sink<N> {
         pub fn new() -> Self {
-            Self { buf: [0u8; N], len: 0, writes: 0, flushes: 0, chunk: usize::MAX, intr_at: usize::MAX, err_at: usize::MAX, calls: 0 }
-        }
-        pub fn bytes(&self) -> &[u8] {
-            &self.buf[..self.len]
+            Self { buf: [0u8; N], len: 0, writes: 0, flushes: 0 }
         }
     }
 
     impl<const N: usize> Write for Sink<N> {
+        fn write(&mut self, b: &[u8]) -> Result<usize> {
+            assert!(self.len + b.len() <= N, "verif: Sink capacity exceeded (harness sizing)");
+            if b.len() == 1 {
+                self.buf[self.len] = b[0];
+            } else {
+                self.buf[self.len..self.len + b.len()].copy_from_slice(b);
+            }
+            self.len += b.len();
+            self.writes += 1;
+            Ok(b.len())
+        }
+        fn flush(&mut self) -> Result<()> {
+            self.flushes += 1;
+            Ok(())
+        }
+        fn write_all(&mut self, b: &[u8]) -> Result<()> {
+            self.write(b).map(|_| ())
+        }
+    }
+
+    /// Sink with a symbolic fault schedule; `write_all` is NOT overridden: the crate's own default loop is exercised.
+    pub struct FaultySink<const N: usize> {
+        pub buf: [u8; N],
+        pub len: usize,
+        /// at most `chunk` bytes accepted per `write` call
+        pub chunk: usize,
+        /// the `write` call with this index returns Err(Interrupted) once
+        pub intr_at: usize,
+        /// every `write` call with index >= err_at returns Err(Other)
+        pub err_at: usize,
+        pub calls: usize,
+    }
+
+    impl<const N: usize> FaultySink<N> {
+        pub fn new() -> Self {
+            Self { buf: [0u8; N], len: 0, chunk: usize::MAX, intr_at: usize::MAX, err_at: usize::MAX, calls: 0 }
+        }
+    }
+
+    impl<const N: usize> Write for FaultySink<N> {
         fn write(&mut self, b: &[u8]) -> Result<usize> {
             let call = self.calls;
             self.calls += 1;
@@ -42,68 +72,105 @@ pub(crate) mod verif_common {
                 return Err(Error::Other("verif: injected sink error"));
             }
             let n = core::cmp::min(b.len(), self.chunk);
-            assert!(self.len + n <= N, "verif: Sink capacity exceeded (harness sizing)");
-            self.buf[self.len..self.len + n].copy_from_slice(&b[..n]);
+            assert!(self.len + n <= N, "verif: FaultySink capacity exceeded (harness sizing)");
+            let mut i = 0;
+            while i < n {
+                self.buf[self.len + i] = b[i];
+                i += 1;
+            }
             self.len += n;
-            self.writes += 1;
             Ok(n)
         }
         fn flush(&mut self) -> Result<()> {
-            self.flushes += 1;
-            Ok(())
-        }
-        fn write_all(&mut self, b: &[u8]) -> Result<()> {
-            if self.chunk == usize::MAX && self.intr_at == usize::MAX {
-                // no fault schedule: single shot, no retry loop nested into the caller's loops
-                return self.write(b).map(|_| ());
-            }
-            // with a fault schedule the crate's own default write_all loop is what is being exercised
-            let mut buf = b;
-            while !buf.is_empty() {
-                match self.write(buf) {
-                    Ok(0) => return Err(Error::WriteZero("could not write any byte")),
-                    Ok(n) => buf = &buf[n..],
-                    Err(Error::Interrupted) => {}
-                    Err(e) => return Err(e),
-                }
-            }
             Ok(())
         }
     }
 
-    /// Fixed-content source with an explicit end (`len`): `read` returns min(want, left) in one shot, `read_exact`
-    /// fails with EOF without consuming when fewer bytes are left (the contract leaves the amount unspecified).
+    /// Fixed-content fault-free source with an explicit end (`len`): `read` returns min(want, left) in one call,
+    /// `read_exact` fails with EOF when fewer bytes are left.  Copies are byte loops (<= N iterations) rather than a
+    /// symbolic-length memcpy: CBMC turns the latter into a whole-array update of the destination (measured: 24 GB
+    /// OOM when the destination is the 64 KiB LZMA2 chunk buffer).
     pub struct Src<const N: usize> {
         pub buf: [u8; N],
         pub len: usize,
         pub pos: usize,
         pub reads: usize,
-        /// fault schedule: at most `chunk` bytes per `read` call (usize::MAX = unlimited)
-        pub chunk: usize,
-        /// fault schedule: the `read`/`read_exact` call with this index (0-based) returns Err(Interrupted) once
-        pub intr_at: usize,
-        /// fault schedule: every `read`/`read_exact` call with index >= err_at returns Err(Other)
-        pub err_at: usize,
-        pub calls: usize,
+        /// number of read_exact calls that failed with EOF / read calls that returned 0 at the end
+        pub eof_hits: usize,
     }
 
     impl<const N: usize> Src<N> {
         pub fn new(buf: [u8; N], len: usize) -> Self {
             assert!(len <= N);
-            Self { buf, len, pos: 0, reads: 0, chunk: usize::MAX, intr_at: usize::MAX, err_at: usize::MAX, calls: 0 }
+            Self { buf, len, pos: 0, reads: 0, eof_hits: 0 }
         }
         pub fn any() -> Self {
             let buf: [u8; N] = kani::any();
             let len: usize = kani::any();
             kani::assume(len <= N);
-            Self { buf, len, pos: 0, reads: 0, chunk: usize::MAX, intr_at: usize::MAX, err_at: usize::MAX, calls: 0 }
+            Self { buf, len, pos: 0, reads: 0, eof_hits: 0 }
         }
         pub fn full(buf: [u8; N]) -> Self {
-            Self { buf, len: N, pos: 0, reads: 0, chunk: usize::MAX, intr_at: usize::MAX, err_at: usize::MAX, calls: 0 }
+            Self { buf, len: N, pos: 0, reads: 0, eof_hits: 0 }
         }
     }
 
     impl<const N: usize> Read for Src<N> {
+        fn read(&mut self, b: &mut [u8]) -> Result<usize> {
+            let n = core::cmp::min(b.len(), self.len - self.pos);
+            let mut i = 0;
+            while i < n {
+                b[i] = self.buf[self.pos + i];
+                i += 1;
+            }
+            self.pos += n;
+            self.reads += 1;
+            Ok(n)
+        }
+        fn read_exact(&mut self, b: &mut [u8]) -> Result<()> {
+            if b.len() > self.len - self.pos {
+                self.pos = self.len;
+                self.eof_hits += 1;
+                return Err(Error::EOF);
+            }
+            let n = b.len();
+            if n == 1 {
+                b[0] = self.buf[self.pos];
+            } else {
+                let mut i = 0;
+                while i < n {
+                    b[i] = self.buf[self.pos + i];
+                    i += 1;
+                }
+            }
+            self.pos += n;
+            self.reads += 1;
+            Ok(())
+        }
+    }
+
+    /// Source with a symbolic fault schedule; `read_exact` is NOT overridden: the crate's default loop is exercised.
+    pub struct FaultySrc<const N: usize> {
+        pub buf: [u8; N],
+        pub len: usize,
+        pub pos: usize,
+        /// at most `chunk` bytes per `read` call
+        pub chunk: usize,
+        /// the `read` call with this index (0-based) returns Err(Interrupted) once
+        pub intr_at: usize,
+        /// every `read` call with index >= err_at returns Err(Other)
+        pub err_at: usize,
+        pub calls: usize,
+    }
+
+    impl<const N: usize> FaultySrc<N> {
+        pub fn new(buf: [u8; N], len: usize) -> Self {
+            assert!(len <= N);
+            Self { buf, len, pos: 0, chunk: usize::MAX, intr_at: usize::MAX, err_at: usize::MAX, calls: 0 }
+        }
+    }
+
+    impl<const N: usize> Read for FaultySrc<N> {
         fn read(&mut self, b: &mut [u8]) -> Result<usize> {
             let call = self.calls;
             self.calls += 1;
@@ -120,30 +187,7 @@ pub(crate) mod verif_common {
                 i += 1;
             }
             self.pos += n;
-            self.reads += 1;
             Ok(n)
-        }
-        fn read_exact(&mut self, b: &mut [u8]) -> Result<()> {
-            let call = self.calls;
-            self.calls += 1;
-            if call >= self.err_at {
-                return Err(Error::Other("verif: injected source error"));
-            }
-            if b.len() > self.len - self.pos {
-                self.pos = self.len;
-                return Err(Error::EOF);
-            }
-            let n = b.len();
-            // byte loop (<= N iterations) instead of a symbolic-length memcpy: CBMC turns the latter into a whole-array
-            // byte_update of the destination (measured: 24 GB OOM when the destination is the 64 KiB chunk buffer)
-            let mut i = 0;
-            while i < n {
-                b[i] = self.buf[self.pos + i];
-                i += 1;
-            }
-            self.pos += n;
-            self.reads += 1;
-            Ok(())
         }
     }
 
@@ -158,5 +202,8 @@ pub(crate) mod verif_common {
     }
     pub fn is_oom(e: &Error) -> bool {
         matches!(e, Error::OutOfMemory(_))
+    }
+    pub fn is_other(e: &Error) -> bool {
+        matches!(e, Error::Other(_))
     }
 }
